@@ -16,7 +16,7 @@ if not targets:
         for f in glob.glob('/verif/harness/*.py'):
             m = re.search(r'\.prove\(\s*"(Properties/%s\.v)"\s*,\s*\[([^\]]*)\]' % pid, open(f).read())
             if m: break
-    targets = [m.group(1)[:-2] + '.vo'] + [t[:-2] + '.vo' for t in re.findall(r'"([^"]+\.v)"', m.group(2))]
+    targets = ([m.group(1)[:-2] + '.vo'] + [t[:-2] + '.vo' for t in re.findall(r'"([^"]+\.v)"', m.group(2))]) if m else None
 note = d['note'] or ''
 note = re.sub(r'^COMMON_NOTE\s*\+\s*', '', note).strip().strip('"')
 entry = {"text": d['text'], "design_ref": "DESIGN.md section 8, %s; section 13" % pid, "note": note, "technique": d['technique'], "coq_targets": targets}
